@@ -114,6 +114,11 @@ def unpack_float80(b: bytes) -> str:
     q = struct.unpack(">Q", b[2:10])[0]
     m = (q*2.0)/(1<<64)
     
+    # The first bit is the sign of the number
+    if (e & 0x8000) != 0:
+        m = -m
+        e = (e & 0x7FFF)
+    
     value = '%s'%(m*pow(2, e - 16383))
     
     return value
